@@ -8,6 +8,7 @@ import (
 	"go/ast"
 	"go/parser"
 	"go/token"
+	"go/types"
 	"os"
 	"path/filepath"
 	"regexp"
@@ -294,10 +295,69 @@ func writeTemplateFacts(repo, outPath string) {
 			})
 		}
 	}
+	// how the value options (flag.Value implementations, `flags.Var(&x.field, "name", …)`) keep what they are given:
+	// (option, Go type of the target field, the type's underlying type as written in its declaration)
+	var stores []string
+	if ents, err := os.ReadDir(genDir); err == nil {
+		fset := token.NewFileSet()
+		typeDecl := map[string]string{}  // declared type -> underlying type expression
+		fieldType := map[string]string{} // struct field name -> type expression
+		type varCall struct{ field, name string }
+		var calls []varCall
+		for _, e := range ents {
+			if e.IsDir() || !strings.HasSuffix(e.Name(), ".go") || strings.HasSuffix(e.Name(), "_test.go") {
+				continue
+			}
+			f, err := parser.ParseFile(fset, filepath.Join(genDir, e.Name()), nil, 0)
+			if err != nil {
+				continue
+			}
+			ast.Inspect(f, func(n ast.Node) bool {
+				switch x := n.(type) {
+				case *ast.TypeSpec:
+					typeDecl[x.Name.Name] = types.ExprString(x.Type)
+					if st, ok := x.Type.(*ast.StructType); ok {
+						for _, fl := range st.Fields.List {
+							for _, nm := range fl.Names {
+								fieldType[nm.Name] = types.ExprString(fl.Type)
+							}
+						}
+					}
+				case *ast.CallExpr:
+					sel, ok := x.Fun.(*ast.SelectorExpr)
+					if !ok || sel.Sel.Name != "Var" || len(x.Args) != 3 {
+						return true
+					}
+					lit, ok := x.Args[1].(*ast.BasicLit)
+					if !ok || lit.Kind != token.STRING {
+						return true
+					}
+					name, _ := strconv.Unquote(lit.Value)
+					field := ""
+					if u, ok := x.Args[0].(*ast.UnaryExpr); ok {
+						switch t := u.X.(type) {
+						case *ast.SelectorExpr:
+							field = t.Sel.Name
+						case *ast.Ident:
+							field = t.Name
+						}
+					}
+					calls = append(calls, varCall{field, name})
+				}
+				return true
+			})
+		}
+		for _, c := range calls {
+			t := fieldType[c.field]
+			stores = append(stores, fmt.Sprintf("(%q, %q, %q)", c.name, t, typeDecl[t]))
+		}
+	}
 	for _, n := range []string{"singlefile.go.tmpl", "permessage.go.tmpl", "fieldsnippets.tmpl"} {
 		reserved += strings.Count(read(n), "Reserved") + strings.Count(read(n), "reserved")
 	}
 	fmt.Fprintf(&b, "/-- the options of the generator: (name, kind) of every `flags.<Kind>Var(&target, \"name\", …)` call in the non-test Go files of cmd/protoc-gen-fastmarshal (kind `value`: a flag.Value implementation) -/\ndef generatorOptions : List (String × String) := [%s]\n\n", strings.Join(opts, ", "))
+	fmt.Fprintf(&b, "/-- how the value options of the generator (`flags.Var(&x.field, \"name\", …)`, a flag.Value whose Set runs once per `name=value` token) keep what they are given: (option, Go type of the target field, the underlying type in that type's declaration) -/\ndef generatorValueOptionStores : List (String × String × String) := [%s]\n\n", strings.Join(stores, ", "))
+	fmt.Printf("fact F23 value option stores %v\n", stores)
 	fmt.Fprintf(&b, "/-- mentions of `Reserved` (descriptor accessors ReservedRanges / ReservedNames) in the non-test Go files of the generator and of `reserved` in its three templates -/\ndef reservedMentions : Nat := %d\n\n", reserved)
 	fmt.Printf("fact F21 generator options %v\nfact F22 mentions of reserved declarations in the generator = %d\n", opts, reserved)
 	b.WriteString("end Csproto.Generated\n")
